@@ -377,3 +377,54 @@ def via_provider(res, case, where, raws, complete_at, name, command, data, ctx):
     if items:
         check_message(res, dict(case, kind='memory'), where + ' via provider', items[0][0], items[0][1],
                       name, command, data, ctx)
+    # a second and a third message on the same association, in the same state: reassembly
+    # state must start afresh for each of them
+    r = rng(case['seed'], 'c07-second', name, case['nfrag'], tuple(case['comp']), case['state'])
+    followers = []
+    stream = list(raws)
+    for k in range(2):
+        other = dict(case, cls=r.choice(msgs.CLASS_NAMES), data=r.random() < 0.6,
+                     nfrag=r.choice([2, 3, 4]), kind='memory', source='ref')
+        built = build_fragments(other, r)
+        if built is None:
+            continue
+        pdvs2, command2, data2, ctx2 = built
+        comp2 = random_composition(r, len(pdvs2))
+        raws2 = [R.build_pdu(t) for t in R.group_pdvs(pdvs2, comp2)]
+        followers.append((len(stream), len(raws2), other['cls'], command2, data2, ctx2))
+        stream += raws2
+    if not followers:
+        return
+    script, _ = c05.build_script(role, prefix)
+    base = len(script)
+    for raw in stream:
+        script.append(('bytes', raw))
+    sim = simnet.Sim(role, script)
+    sim.run()
+    res.count('oracle.consecutive-messages')
+    if sim.outcome != 'end-of-script':
+        res.violation('provider-run-failed', 'C07.provider', '%s in %s + %d more messages: run() %s %s' % (
+            where, case['state'], len(followers), sim.outcome, sim.error), case)
+        return
+    items = [o for o in sim.indication_objs if isinstance(o, tuple)]
+    if len(items) != 1 + len(followers):
+        res.violation('consecutive-messages-count', 'C07.provider',
+                      '%s in %s followed by %r: %d messages delivered' % (
+                          where, case['state'], [f[2] for f in followers], len(items)), case)
+        return
+    for (start, n, cls2, command2, data2, ctx2), item in zip(followers, items[1:]):
+        # delivered exactly when its own last PDU has arrived
+        snaps = [s for s in sim.trace if s['pos'] >= base + start + n]
+        before = [s for s in sim.trace if s['pos'] >= base + start + n - 1]
+        now = sum(1 for i in sim.indications[:(snaps[0]['ind_n'] if snaps else len(sim.indications))]
+                  if i[0] == 'DIMSE')
+        earlier = sum(1 for i in sim.indications[:before[0]['ind_n']] if i[0] == 'DIMSE') if n > 1 else None
+        idx = items.index(item) + 1
+        if now < idx or (earlier is not None and earlier >= idx):
+            res.violation('message-queued-early' if earlier is not None and earlier >= idx
+                          else 'message-queued-late', 'C07.provider',
+                          '%s in %s: follow-up message %s delivered at the wrong PDU' % (
+                              where, case['state'], cls2), case)
+            return
+        check_message(res, dict(case, kind='memory'), where + ' then ' + cls2 + ' via provider',
+                      item[0], item[1], cls2, command2, data2, ctx2)
